@@ -114,7 +114,7 @@ func (l *c09Loader) load(path string) (*c09Pkg, error) {
 	if len(files) == 0 {
 		return nil, fmt.Errorf("no Go files in %s", dir)
 	}
-	info := &types.Info{Types: map[ast.Expr]types.TypeAndValue{}, Defs: map[*ast.Ident]types.Object{}, Uses: map[*ast.Ident]types.Object{}, Selections: map[*ast.SelectorExpr]*types.Selection{}}
+	info := &types.Info{Types: map[ast.Expr]types.TypeAndValue{}, Defs: map[*ast.Ident]types.Object{}, Uses: map[*ast.Ident]types.Object{}, Selections: map[*ast.SelectorExpr]*types.Selection{}, Implicits: map[ast.Node]types.Object{}}
 	conf := types.Config{Importer: l, Error: func(error) {}, FakeImportC: true}
 	pkg, _ := conf.Check(path, l.fset, files, info)
 	if pkg == nil {
@@ -1167,7 +1167,19 @@ func c09Generate(repo string) string {
 		uw = append(uw, fmt.Sprintf("  (%s, %s, [%s])", q(k.loc), q(k.fn), strings.Join(ds, ", ")))
 	}
 	b.WriteString(strings.Join(uw, ",\n"))
-	b.WriteString("\n]\n\nend Risor.Generated.C09\n")
+	b.WriteString("\n]\n\n")
+	// 6. objects handed out by registry-resident objects; where vm.Run's machine comes from
+	{
+		var stateVars []*types.Var
+		for v, vi := range vars {
+			if vi.kind == "state" {
+				stateVars = append(stateVars, v)
+			}
+		}
+		sort.Slice(stateVars, func(i, j int) bool { return vars[stateVars[i]].name < vars[stateVars[j]].name })
+		b.WriteString(c09RegistryTables(scope, stateVars))
+	}
+	b.WriteString("end Risor.Generated.C09\n")
 	return b.String()
 }
 
@@ -1231,4 +1243,929 @@ func c09Mentions(repo, ident string) map[string]bool {
 
 func init() {
 	generators = append(generators, generator{"C09", c09Generate})
+}
+
+// ---------------------------------------------------------------------------------------
+// 6. Objects handed out from process-wide registries, and the source of vm.Run's machine.
+//
+// registryTypes    the Risor object types (named structs of the packages in scope that implement
+//                  object.Object) REACHABLE from package-level state variables through pointers, maps,
+//                  slices, struct fields and — for interface-typed fields other than object.Object
+//                  itself — the concrete types the code asserts / type-switches such interface values
+//                  to (GoAttribute → GoField, GoMethod); with every type, the receiver fields that
+//                  its methods assign.
+// registryReturns  for every method of such a type with an object.Object result, and for every
+//                  function literal with such a result built inside one (the builtins GetAttr hands
+//                  out), where each returned object comes from:
+//                    fresh   composite literal / &composite / new / a constructor of the packages in
+//                            scope all of whose returns are (recursively) fresh
+//                    field   read from a field of the resident object;  elem  an element of such a field
+//                    global  a package-level variable;  self  the resident object;  param  an argument
+//                    via     a call into another function whose result is not fresh
+//                    extern / dyncall / other   anything this analysis cannot follow
+//                  with the static Go type of the returned expression.  (`nil` results are dropped.)
+// machineSources   for every function of package vm: where each *VirtualMachine it defines or returns
+//                  comes from (new = &VirtualMachine{…}; call:<fn>; assert:<expr> = a type assertion,
+//                  e.g. on the result of sync.Pool.Get; other:<expr>).
+
+type c09Src struct{ kind, detail, typ string }
+
+type c09FnCtx struct {
+	p        *c09Pkg
+	fobj     *types.Func
+	recv     *types.Var
+	params   map[*types.Var]bool
+	body     *ast.BlockStmt
+	implicit map[*types.Var]ast.Expr // type-switch clause variable → the switched expression
+	results  []*types.Var            // named results
+}
+
+type c09Classifier struct {
+	scope    []*c09Pkg
+	inScope  map[*types.Package]bool
+	decls    map[*types.Func]*c09FnCtx
+	memo     map[string][]c09Src
+	busy     map[string]bool
+	pkgVars  map[*types.Var]string
+	typeName func(types.Type) string
+}
+
+func c09ExprString(e ast.Expr) string {
+	switch x := e.(type) {
+	case *ast.Ident:
+		return x.Name
+	case *ast.SelectorExpr:
+		return c09ExprString(x.X) + "." + x.Sel.Name
+	case *ast.IndexExpr:
+		return c09ExprString(x.X) + "[…]"
+	case *ast.CallExpr:
+		return c09ExprString(x.Fun) + "()"
+	case *ast.ParenExpr:
+		return c09ExprString(x.X)
+	case *ast.StarExpr:
+		return "*" + c09ExprString(x.X)
+	case *ast.UnaryExpr:
+		return x.Op.String() + c09ExprString(x.X)
+	case *ast.TypeAssertExpr:
+		return c09ExprString(x.X) + ".(T)"
+	case *ast.CompositeLit:
+		return "lit"
+	case *ast.FuncLit:
+		return "func"
+	}
+	return fmt.Sprintf("%T", e)
+}
+
+func (c *c09Classifier) newCtx(p *c09Pkg, fobj *types.Func, ft *ast.FuncType, recv *ast.FieldList, body *ast.BlockStmt, outer *c09FnCtx) *c09FnCtx {
+	fc := &c09FnCtx{p: p, fobj: fobj, params: map[*types.Var]bool{}, body: body, implicit: map[*types.Var]ast.Expr{}}
+	if outer != nil { // a function literal sees the enclosing function's receiver, parameters and locals
+		fc.recv = outer.recv
+		for k := range outer.params {
+			fc.params[k] = true
+		}
+		for k, v := range outer.implicit {
+			fc.implicit[k] = v
+		}
+		fc.body = outer.body
+	}
+	if recv != nil {
+		for _, f := range recv.List {
+			for _, n := range f.Names {
+				if v, ok := p.info.Defs[n].(*types.Var); ok {
+					fc.recv = v
+				}
+			}
+		}
+	}
+	if ft.Params != nil {
+		for _, f := range ft.Params.List {
+			for _, n := range f.Names {
+				if v, ok := p.info.Defs[n].(*types.Var); ok {
+					fc.params[v] = true
+				}
+			}
+		}
+	}
+	if ft.Results != nil {
+		for _, f := range ft.Results.List {
+			for _, n := range f.Names {
+				if v, ok := p.info.Defs[n].(*types.Var); ok {
+					fc.results = append(fc.results, v)
+				}
+			}
+		}
+	}
+	if body != nil {
+		ast.Inspect(body, func(n ast.Node) bool {
+			ts, ok := n.(*ast.TypeSwitchStmt)
+			if !ok {
+				return true
+			}
+			var x ast.Expr
+			switch a := ts.Assign.(type) {
+			case *ast.AssignStmt:
+				if ta, ok := a.Rhs[0].(*ast.TypeAssertExpr); ok {
+					x = ta.X
+				}
+			case *ast.ExprStmt:
+				if ta, ok := a.X.(*ast.TypeAssertExpr); ok {
+					x = ta.X
+				}
+			}
+			if x == nil {
+				return true
+			}
+			for _, cl := range ts.Body.List {
+				if v, ok := p.info.Implicits[cl].(*types.Var); ok {
+					fc.implicit[v] = x
+				}
+			}
+			return true
+		})
+	}
+	return fc
+}
+
+// returnsOf: the sources of result idx of a declared function (memoised; a cycle contributes nothing)
+func (c *c09Classifier) returnsOf(f *types.Func, idx int) []c09Src {
+	key := fmt.Sprintf("%s#%d", c09FuncName(f), idx)
+	if r, ok := c.memo[key]; ok {
+		return r
+	}
+	if c.busy[key] {
+		return nil
+	}
+	fc := c.decls[f]
+	if fc == nil || fc.body == nil {
+		return []c09Src{{"extern", c09FuncName(f), ""}}
+	}
+	c.busy[key] = true
+	out := c.returnsIn(fc, fc.body, idx)
+	delete(c.busy, key)
+	c.memo[key] = out
+	return out
+}
+
+// returnsIn: classify result idx of every return statement directly in body (not in nested literals)
+func (c *c09Classifier) returnsIn(fc *c09FnCtx, body *ast.BlockStmt, idx int) []c09Src {
+	var out []c09Src
+	var walk func(n ast.Node) bool
+	walk = func(n ast.Node) bool {
+		switch s := n.(type) {
+		case *ast.FuncLit:
+			return false
+		case *ast.ReturnStmt:
+			switch {
+			case len(s.Results) == 0:
+				if idx < len(fc.results) {
+					out = append(out, c.local(fc, fc.results[idx], 0)...)
+				}
+			case idx < len(s.Results):
+				out = append(out, c.expr(fc, s.Results[idx], 0)...)
+			case len(s.Results) == 1:
+				out = append(out, c.exprAt(fc, s.Results[0], idx, 0)...)
+			}
+		}
+		return true
+	}
+	ast.Inspect(body, walk)
+	return out
+}
+
+func (c *c09Classifier) typeOf(fc *c09FnCtx, e ast.Expr) string {
+	if tv, ok := fc.p.info.Types[e]; ok && tv.Type != nil {
+		return c.typeName(tv.Type)
+	}
+	return "?"
+}
+
+// local: the sources of everything assigned to a local variable inside the function
+func (c *c09Classifier) local(fc *c09FnCtx, v *types.Var, depth int) []c09Src {
+	if depth > 6 {
+		return []c09Src{{"other", "deep:" + v.Name(), c.typeName(v.Type())}}
+	}
+	if x, ok := fc.implicit[v]; ok {
+		return c.expr(fc, x, depth+1)
+	}
+	var out []c09Src
+	is := func(e ast.Expr) bool {
+		id, ok := e.(*ast.Ident)
+		if !ok {
+			return false
+		}
+		return fc.p.info.Defs[id] == types.Object(v) || fc.p.info.Uses[id] == types.Object(v)
+	}
+	found := false
+	ast.Inspect(fc.body, func(n ast.Node) bool {
+		switch s := n.(type) {
+		case *ast.AssignStmt:
+			for i, lhs := range s.Lhs {
+				if !is(lhs) {
+					continue
+				}
+				found = true
+				if len(s.Rhs) == len(s.Lhs) {
+					out = append(out, c.expr(fc, s.Rhs[i], depth+1)...)
+				} else if len(s.Rhs) == 1 {
+					out = append(out, c.exprAt(fc, s.Rhs[0], i, depth+1)...)
+				}
+			}
+		case *ast.ValueSpec:
+			for i, n := range s.Names {
+				if !is(n) {
+					continue
+				}
+				found = true
+				if len(s.Values) == len(s.Names) {
+					out = append(out, c.expr(fc, s.Values[i], depth+1)...)
+				} else if len(s.Values) == 1 {
+					out = append(out, c.exprAt(fc, s.Values[0], i, depth+1)...)
+				} else {
+					out = append(out, c09Src{"nil", "", ""})
+				}
+			}
+		case *ast.RangeStmt:
+			if s.Value != nil && is(s.Value) {
+				found = true
+				for _, src := range c.expr(fc, s.X, depth+1) {
+					if src.kind == "field" || src.kind == "elem" {
+						out = append(out, c09Src{"elem", src.detail, c.typeName(v.Type())})
+					} else {
+						out = append(out, c09Src{src.kind, src.detail, c.typeName(v.Type())})
+					}
+				}
+			}
+			if s.Key != nil && is(s.Key) {
+				found = true
+				out = append(out, c09Src{"other", "range-key:" + c09ExprString(s.X), c.typeName(v.Type())})
+			}
+		}
+		return true
+	})
+	if !found {
+		out = append(out, c09Src{"other", "unassigned:" + v.Name(), c.typeName(v.Type())})
+	}
+	return out
+}
+
+// exprAt: result idx of a multi-valued expression (a call, a map index or a type assertion with ok)
+func (c *c09Classifier) exprAt(fc *c09FnCtx, e ast.Expr, idx, depth int) []c09Src {
+	switch x := e.(type) {
+	case *ast.ParenExpr:
+		return c.exprAt(fc, x.X, idx, depth)
+	case *ast.CallExpr:
+		return c.call(fc, x, idx, depth)
+	}
+	if idx == 0 {
+		return c.expr(fc, e, depth)
+	}
+	return []c09Src{{"other", c09ExprString(e), "?"}}
+}
+
+func (c *c09Classifier) expr(fc *c09FnCtx, e ast.Expr, depth int) []c09Src {
+	if depth > 8 {
+		return []c09Src{{"other", "deep:" + c09ExprString(e), c.typeOf(fc, e)}}
+	}
+	info := fc.p.info
+	switch x := e.(type) {
+	case *ast.ParenExpr:
+		return c.expr(fc, x.X, depth)
+	case *ast.Ident:
+		switch o := info.Uses[x].(type) {
+		case *types.Nil:
+			return []c09Src{{"nil", "", ""}}
+		case *types.Var:
+			if name, ok := c.pkgVars[o]; ok {
+				return []c09Src{{"global", name, c.typeName(o.Type())}}
+			}
+			if o == fc.recv {
+				return []c09Src{{"self", "", c.typeName(o.Type())}}
+			}
+			if fc.params[o] {
+				return []c09Src{{"param", o.Name(), c.typeName(o.Type())}}
+			}
+			if o.IsField() {
+				return []c09Src{{"other", "field-ident:" + o.Name(), c.typeName(o.Type())}}
+			}
+			return c.local(fc, o, depth+1)
+		}
+		return []c09Src{{"other", x.Name, c.typeOf(fc, e)}}
+	case *ast.CompositeLit:
+		return []c09Src{{"fresh", "", c.typeOf(fc, e)}}
+	case *ast.FuncLit:
+		return []c09Src{{"fresh", "", c.typeOf(fc, e)}}
+	case *ast.BasicLit:
+		return []c09Src{{"fresh", "", c.typeOf(fc, e)}}
+	case *ast.UnaryExpr:
+		if x.Op == token.AND {
+			if _, ok := x.X.(*ast.CompositeLit); ok {
+				return []c09Src{{"fresh", "", c.typeOf(fc, e)}}
+			}
+		}
+		return []c09Src{{"other", c09ExprString(e), c.typeOf(fc, e)}}
+	case *ast.TypeAssertExpr:
+		var out []c09Src
+		for _, s := range c.expr(fc, x.X, depth+1) {
+			if s.kind != "nil" {
+				s.typ = c.typeOf(fc, e)
+			}
+			out = append(out, s)
+		}
+		return out
+	case *ast.SelectorExpr:
+		if sel := info.Selections[x]; sel != nil && sel.Kind() == types.FieldVal {
+			var out []c09Src
+			for _, s := range c.expr(fc, x.X, depth+1) {
+				switch s.kind {
+				case "self":
+					out = append(out, c09Src{"field", x.Sel.Name, c.typeOf(fc, e)})
+				case "field", "elem":
+					out = append(out, c09Src{s.kind, s.detail + "." + x.Sel.Name, c.typeOf(fc, e)})
+				case "fresh":
+					out = append(out, c09Src{"fresh", "", c.typeOf(fc, e)})
+				default:
+					out = append(out, c09Src{s.kind, s.detail + "." + x.Sel.Name, c.typeOf(fc, e)})
+				}
+			}
+			return out
+		}
+		if o, ok := info.Uses[x.Sel].(*types.Var); ok { // pkg.Var
+			if name, ok := c.pkgVars[o]; ok {
+				return []c09Src{{"global", name, c.typeName(o.Type())}}
+			}
+		}
+		return []c09Src{{"other", c09ExprString(e), c.typeOf(fc, e)}}
+	case *ast.IndexExpr:
+		var out []c09Src
+		for _, s := range c.expr(fc, x.X, depth+1) {
+			switch s.kind {
+			case "field", "elem":
+				out = append(out, c09Src{"elem", s.detail, c.typeOf(fc, e)})
+			case "fresh": // an element of a container built here: whatever was put in; not followed
+				out = append(out, c09Src{"other", "elem-of-fresh:" + c09ExprString(x.X), c.typeOf(fc, e)})
+			default:
+				out = append(out, c09Src{s.kind, s.detail + "[…]", c.typeOf(fc, e)})
+			}
+		}
+		return out
+	case *ast.CallExpr:
+		return c.call(fc, x, 0, depth)
+	}
+	return []c09Src{{"other", c09ExprString(e), c.typeOf(fc, e)}}
+}
+
+func (c *c09Classifier) call(fc *c09FnCtx, call *ast.CallExpr, idx, depth int) []c09Src {
+	info := fc.p.info
+	resType := func() string {
+		if tv, ok := info.Types[call]; ok && tv.Type != nil {
+			if tup, ok := tv.Type.(*types.Tuple); ok {
+				if idx < tup.Len() {
+					return c.typeName(tup.At(idx).Type())
+				}
+				return "?"
+			}
+			return c.typeName(tv.Type)
+		}
+		return "?"
+	}
+	if tv, ok := info.Types[call.Fun]; ok && tv.IsType() && len(call.Args) == 1 { // conversion
+		return c.expr(fc, call.Args[0], depth+1)
+	}
+	var callee types.Object
+	var recvExpr ast.Expr
+	switch f := call.Fun.(type) {
+	case *ast.Ident:
+		callee = info.Uses[f]
+	case *ast.SelectorExpr:
+		callee = info.Uses[f.Sel]
+		if sel := info.Selections[f]; sel != nil {
+			recvExpr = f.X
+		}
+	case *ast.ParenExpr:
+		if id, ok := f.X.(*ast.Ident); ok {
+			callee = info.Uses[id]
+		}
+	}
+	switch o := callee.(type) {
+	case *types.Builtin:
+		if o.Name() == "new" || o.Name() == "make" {
+			return []c09Src{{"fresh", "", resType()}}
+		}
+		return []c09Src{{"other", o.Name() + "()", resType()}}
+	case *types.Func:
+		if o.Pkg() == nil || !c.inScope[o.Pkg()] || c.decls[o] == nil {
+			return []c09Src{{"extern", c09FuncName(o), resType()}}
+		}
+		onSelf := false
+		if recvExpr != nil {
+			if id, ok := recvExpr.(*ast.Ident); ok && fc.recv != nil && info.Uses[id] == types.Object(fc.recv) {
+				onSelf = true
+			}
+		}
+		var out []c09Src
+		for _, s := range c.returnsOf(o, idx) {
+			switch s.kind {
+			case "fresh", "global", "nil", "extern", "dyncall", "via":
+				out = append(out, s)
+			case "self", "field", "elem":
+				if onSelf {
+					out = append(out, s)
+				} else {
+					out = append(out, c09Src{"via", c09FuncName(o) + ":" + s.kind + ":" + s.detail, s.typ})
+				}
+			default:
+				out = append(out, c09Src{"via", c09FuncName(o) + ":" + s.kind + ":" + s.detail, s.typ})
+			}
+		}
+		if len(out) == 0 { // only cycles: nothing but what the other returns already say
+			return nil
+		}
+		return out
+	case *types.Var:
+		return []c09Src{{"dyncall", c09ExprString(call.Fun), resType()}}
+	}
+	return []c09Src{{"dyncall", c09ExprString(call.Fun), resType()}}
+}
+
+func c09RegistryTables(scope []*c09Pkg, stateVars []*types.Var) string {
+	tname := func(t types.Type) string {
+		return types.TypeString(t, func(q *types.Package) string { return q.Name() })
+	}
+	q := func(s string) string { return fmt.Sprintf("%q", s) }
+	var objPkg, vmPkg *c09Pkg
+	inScope := map[*types.Package]bool{}
+	for _, p := range scope {
+		inScope[p.pkg] = true
+		switch c09ShortPkg(p.pkg) {
+		case "object":
+			objPkg = p
+		case "vm":
+			vmPkg = p
+		}
+	}
+	if objPkg == nil || vmPkg == nil {
+		panic("C09: packages object and vm must be in scope")
+	}
+	objectObj := objPkg.pkg.Scope().Lookup("Object")
+	if objectObj == nil {
+		panic("C09: object.Object not found")
+	}
+	objIface, _ := objectObj.Type().Underlying().(*types.Interface)
+	isObjectIface := func(t types.Type) bool { return types.Identical(t, objectObj.Type()) }
+	implementsObject := func(n *types.Named) bool {
+		return objIface != nil && (types.Implements(types.NewPointer(n), objIface) || types.Implements(n, objIface))
+	}
+
+	// the concrete types interface values are asserted / switched to
+	ifaceImpl := map[*types.TypeName]map[*types.Named]bool{}
+	for _, p := range scope {
+		note := func(x, te ast.Expr) {
+			tv, ok := p.info.Types[x]
+			if !ok || tv.Type == nil {
+				return
+			}
+			n, ok := tv.Type.(*types.Named)
+			if !ok {
+				return
+			}
+			if _, isI := n.Underlying().(*types.Interface); !isI {
+				return
+			}
+			ct, ok := p.info.Types[te]
+			if !ok || ct.Type == nil {
+				return
+			}
+			cn := c09NamedStruct(ct.Type)
+			if cn == nil {
+				return
+			}
+			if ifaceImpl[n.Obj()] == nil {
+				ifaceImpl[n.Obj()] = map[*types.Named]bool{}
+			}
+			ifaceImpl[n.Obj()][cn] = true
+		}
+		for _, f := range p.files {
+			ast.Inspect(f, func(n ast.Node) bool {
+				switch s := n.(type) {
+				case *ast.TypeAssertExpr:
+					if s.Type != nil {
+						note(s.X, s.Type)
+					}
+				case *ast.TypeSwitchStmt:
+					var x ast.Expr
+					switch a := s.Assign.(type) {
+					case *ast.AssignStmt:
+						if ta, ok := a.Rhs[0].(*ast.TypeAssertExpr); ok {
+							x = ta.X
+						}
+					case *ast.ExprStmt:
+						if ta, ok := a.X.(*ast.TypeAssertExpr); ok {
+							x = ta.X
+						}
+					}
+					if x != nil {
+						for _, cl := range s.Body.List {
+							for _, te := range cl.(*ast.CaseClause).List {
+								note(x, te)
+							}
+						}
+					}
+				}
+				return true
+			})
+		}
+	}
+
+	// reachability from package-level state
+	resident := map[*types.Named]bool{}
+	seen := map[types.Type]bool{}
+	var visit func(t types.Type, depth int)
+	visit = func(t types.Type, depth int) {
+		if t == nil || depth > 14 || seen[t] {
+			return
+		}
+		seen[t] = true
+		switch x := t.(type) {
+		case *types.Pointer:
+			visit(x.Elem(), depth+1)
+		case *types.Map:
+			visit(x.Key(), depth+1)
+			visit(x.Elem(), depth+1)
+		case *types.Slice:
+			visit(x.Elem(), depth+1)
+		case *types.Array:
+			visit(x.Elem(), depth+1)
+		case *types.Struct:
+			for i := 0; i < x.NumFields(); i++ {
+				visit(x.Field(i).Type(), depth+1)
+			}
+		case *types.Named:
+			if x.Obj().Pkg() == nil || !inScope[x.Obj().Pkg()] {
+				return
+			}
+			switch u := x.Underlying().(type) {
+			case *types.Struct:
+				if implementsObject(x) {
+					resident[x] = true
+				}
+				visit(u, depth+1)
+			case *types.Interface:
+				if isObjectIface(x) {
+					return
+				}
+				var cs []*types.Named
+				for cn := range ifaceImpl[x.Obj()] {
+					cs = append(cs, cn)
+				}
+				sort.Slice(cs, func(i, j int) bool { return cs[i].Obj().Name() < cs[j].Obj().Name() })
+				for _, cn := range cs {
+					visit(cn, depth+1)
+				}
+			default:
+				visit(u, depth+1)
+			}
+		}
+	}
+	for _, v := range stateVars {
+		visit(v.Type(), 0)
+	}
+	var res []*types.Named
+	for n := range resident {
+		res = append(res, n)
+	}
+	sort.Slice(res, func(i, j int) bool { return tname(res[i]) < tname(res[j]) })
+
+	// declarations
+	cl := &c09Classifier{scope: scope, inScope: inScope, decls: map[*types.Func]*c09FnCtx{}, memo: map[string][]c09Src{}, busy: map[string]bool{},
+		pkgVars: map[*types.Var]string{}, typeName: tname}
+	type decl struct {
+		p  *c09Pkg
+		fd *ast.FuncDecl
+		fo *types.Func
+	}
+	var decls []decl
+	for _, p := range scope {
+		sc := p.pkg.Scope()
+		for _, n := range sc.Names() {
+			if v, ok := sc.Lookup(n).(*types.Var); ok {
+				cl.pkgVars[v] = c09ShortPkg(p.pkg) + "." + n
+			}
+		}
+		for _, f := range p.files {
+			for _, d := range f.Decls {
+				fd, ok := d.(*ast.FuncDecl)
+				if !ok {
+					continue
+				}
+				fo, ok := p.info.Defs[fd.Name].(*types.Func)
+				if !ok {
+					continue
+				}
+				cl.decls[fo] = cl.newCtx(p, fo, fd.Type, fd.Recv, fd.Body, nil)
+				decls = append(decls, decl{p, fd, fo})
+			}
+		}
+	}
+	recvNamed := func(fo *types.Func) *types.Named {
+		sig, _ := fo.Type().(*types.Signature)
+		if sig == nil || sig.Recv() == nil {
+			return nil
+		}
+		t := sig.Recv().Type()
+		if pt, ok := t.(*types.Pointer); ok {
+			t = pt.Elem()
+		}
+		n, _ := t.(*types.Named)
+		return n
+	}
+
+	// receiver fields assigned by methods
+	fieldWrites := map[*types.Named]map[string]bool{}
+	for _, d := range decls {
+		n := recvNamed(d.fo)
+		if n == nil || !resident[n] || d.fd.Body == nil {
+			continue
+		}
+		fc := cl.decls[d.fo]
+		var fieldOfRecv func(e ast.Expr) string
+		fieldOfRecv = func(e ast.Expr) string {
+			switch x := e.(type) {
+			case *ast.ParenExpr:
+				return fieldOfRecv(x.X)
+			case *ast.IndexExpr:
+				return fieldOfRecv(x.X)
+			case *ast.StarExpr:
+				return fieldOfRecv(x.X)
+			case *ast.SelectorExpr:
+				if id, ok := x.X.(*ast.Ident); ok && fc.recv != nil && d.p.info.Uses[id] == types.Object(fc.recv) {
+					return x.Sel.Name
+				}
+				return fieldOfRecv(x.X)
+			}
+			return ""
+		}
+		ast.Inspect(d.fd.Body, func(nd ast.Node) bool {
+			switch s := nd.(type) {
+			case *ast.AssignStmt:
+				for _, lhs := range s.Lhs {
+					if f := fieldOfRecv(lhs); f != "" {
+						if fieldWrites[n] == nil {
+							fieldWrites[n] = map[string]bool{}
+						}
+						fieldWrites[n][f] = true
+					}
+				}
+			case *ast.IncDecStmt:
+				if f := fieldOfRecv(s.X); f != "" {
+					if fieldWrites[n] == nil {
+						fieldWrites[n] = map[string]bool{}
+					}
+					fieldWrites[n][f] = true
+				}
+			}
+			return true
+		})
+	}
+
+	var b strings.Builder
+	b.WriteString("/-- Risor object types reachable from package-level state (registries, caches, singletons), each with\n    the receiver fields that its methods assign -/\n")
+	b.WriteString("def registryTypes : List (String × List String) := [\n")
+	for i, n := range res {
+		var fs []string
+		for f := range fieldWrites[n] {
+			fs = append(fs, q(f))
+		}
+		sort.Strings(fs)
+		sep := ","
+		if i == len(res)-1 {
+			sep = ""
+		}
+		fmt.Fprintf(&b, "  (%s, [%s])%s\n", q(tname(n)), strings.Join(fs, ", "), sep)
+	}
+	b.WriteString("]\n\n")
+
+	// returns of Object-valued methods and of the function literals built inside them.  A LEAF type
+	// (no pointer / map / slice / interface / func field besides the embedded *base: String, Int, Bool,
+	// Byte, NilType) has nowhere to keep an object, so its `fresh` rows are dropped: what remains for it
+	// are the globals / parameters / itself that it hands out.
+	type row struct{ owner, kind, detail, typ string }
+	rowSet := map[row]bool{}
+	leaf := func(n *types.Named) bool {
+		st, ok := n.Underlying().(*types.Struct)
+		if !ok {
+			return false
+		}
+		for i := 0; i < st.NumFields(); i++ {
+			f := st.Field(i)
+			if f.Embedded() && f.Name() == "base" {
+				continue
+			}
+			switch f.Type().Underlying().(type) {
+			case *types.Pointer, *types.Map, *types.Slice, *types.Interface, *types.Signature, *types.Chan, *types.Struct, *types.Array:
+				return false
+			}
+		}
+		return true
+	}
+	addRow := func(n *types.Named, r row) {
+		if r.kind == "nil" || (r.kind == "fresh" && leaf(n)) {
+			return
+		}
+		rowSet[r] = true
+	}
+	objResultIdx := func(sig *types.Signature) []int {
+		var idx []int
+		for i := 0; i < sig.Results().Len(); i++ {
+			if isObjectIface(sig.Results().At(i).Type()) {
+				idx = append(idx, i)
+			}
+		}
+		return idx
+	}
+	for _, d := range decls {
+		n := recvNamed(d.fo)
+		if n == nil || !resident[n] || d.fd.Body == nil {
+			continue
+		}
+		owner := c09FuncName(d.fo)
+		sig := d.fo.Type().(*types.Signature)
+		fc := cl.decls[d.fo]
+		for _, i := range objResultIdx(sig) {
+			for _, s := range cl.returnsIn(fc, d.fd.Body, i) {
+				addRow(n, row{owner, s.kind, s.detail, s.typ})
+			}
+		}
+		ast.Inspect(d.fd.Body, func(nd ast.Node) bool {
+			fl, ok := nd.(*ast.FuncLit)
+			if !ok {
+				return true
+			}
+			tv, ok := d.p.info.Types[fl]
+			if !ok {
+				return true
+			}
+			lsig, ok := tv.Type.(*types.Signature)
+			if !ok {
+				return true
+			}
+			lc := cl.newCtx(d.p, d.fo, fl.Type, nil, fl.Body, fc)
+			for _, i := range objResultIdx(lsig) {
+				for _, s := range cl.returnsIn(lc, fl.Body, i) {
+					addRow(n, row{owner + "$func", s.kind, s.detail, s.typ})
+				}
+			}
+			return true
+		})
+	}
+	var rows []row
+	for r := range rowSet {
+		rows = append(rows, r)
+	}
+	sort.Slice(rows, func(i, j int) bool {
+		a, c := rows[i], rows[j]
+		if a.owner != c.owner {
+			return a.owner < c.owner
+		}
+		if a.kind != c.kind {
+			return a.kind < c.kind
+		}
+		if a.detail != c.detail {
+			return a.detail < c.detail
+		}
+		return a.typ < c.typ
+	})
+	b.WriteString("/-- (method, source kind, detail, Go type) of every object.Object returned by a method of a registry-resident\n    type or by a function literal built inside one (`$func`) -/\n")
+	b.WriteString("def registryReturns : List (String × String × String × String) := [\n")
+	for i, r := range rows {
+		sep := ","
+		if i == len(rows)-1 {
+			sep = ""
+		}
+		fmt.Fprintf(&b, "  (%s, %s, %s, %s)%s\n", q(r.owner), q(r.kind), q(r.detail), q(r.typ), sep)
+	}
+	b.WriteString("]\n\n")
+
+	// where machines come from
+	var vmNamed *types.Named
+	if o := vmPkg.pkg.Scope().Lookup("VirtualMachine"); o != nil {
+		vmNamed, _ = o.Type().(*types.Named)
+	}
+	isVMPtr := func(t types.Type) bool {
+		pt, ok := t.(*types.Pointer)
+		if !ok || vmNamed == nil {
+			return false
+		}
+		return types.Identical(pt.Elem(), vmNamed)
+	}
+	type ms struct{ fn, src string }
+	msSet := map[ms]bool{}
+	var srcOf func(p *c09Pkg, e ast.Expr) string
+	srcOf = func(p *c09Pkg, e ast.Expr) string {
+		switch x := e.(type) {
+		case *ast.ParenExpr:
+			return srcOf(p, x.X)
+		case *ast.UnaryExpr:
+			if x.Op == token.AND {
+				if _, ok := x.X.(*ast.CompositeLit); ok {
+					return "new"
+				}
+			}
+		case *ast.TypeAssertExpr:
+			return "assert:" + c09ExprString(x.X)
+		case *ast.CallExpr:
+			var callee types.Object
+			switch f := x.Fun.(type) {
+			case *ast.Ident:
+				callee = p.info.Uses[f]
+			case *ast.SelectorExpr:
+				callee = p.info.Uses[f.Sel]
+			}
+			if fo, ok := callee.(*types.Func); ok {
+				return "call:" + c09FuncName(fo)
+			}
+			if bo, ok := callee.(*types.Builtin); ok && bo.Name() == "new" {
+				return "new"
+			}
+			return "other:" + c09ExprString(e)
+		case *ast.Ident:
+			if o, ok := p.info.Uses[x].(*types.Var); ok {
+				if _, isPkg := cl.pkgVars[o]; isPkg {
+					return "global:" + cl.pkgVars[o]
+				}
+				return "var:" + o.Name()
+			}
+		}
+		return "other:" + c09ExprString(e)
+	}
+	for _, d := range decls {
+		if d.p != vmPkg || d.fd.Body == nil {
+			continue
+		}
+		fn := c09FuncName(d.fo)
+		sig := d.fo.Type().(*types.Signature)
+		var retIdx []int
+		for i := 0; i < sig.Results().Len(); i++ {
+			if isVMPtr(sig.Results().At(i).Type()) {
+				retIdx = append(retIdx, i)
+			}
+		}
+		ast.Inspect(d.fd.Body, func(nd ast.Node) bool {
+			switch s := nd.(type) {
+			case *ast.FuncLit:
+				return false
+			case *ast.AssignStmt:
+				for i, lhs := range s.Lhs {
+					id, ok := lhs.(*ast.Ident)
+					if !ok {
+						continue
+					}
+					var o types.Object = d.p.info.Defs[id]
+					if o == nil {
+						o = d.p.info.Uses[id]
+					}
+					v, ok := o.(*types.Var)
+					if !ok || !isVMPtr(v.Type()) {
+						continue
+					}
+					if len(s.Rhs) == len(s.Lhs) {
+						msSet[ms{fn, srcOf(d.p, s.Rhs[i])}] = true
+					} else if len(s.Rhs) == 1 {
+						msSet[ms{fn, srcOf(d.p, s.Rhs[0])}] = true
+					}
+				}
+			case *ast.ReturnStmt:
+				for _, i := range retIdx {
+					if i < len(s.Results) {
+						if src := srcOf(d.p, s.Results[i]); !strings.HasPrefix(src, "var:") && src != "other:nil" {
+							msSet[ms{fn, src}] = true
+						}
+					} else if len(s.Results) == 1 {
+						msSet[ms{fn, srcOf(d.p, s.Results[0])}] = true
+					}
+				}
+			}
+			return true
+		})
+	}
+	var mss []ms
+	for m := range msSet {
+		mss = append(mss, m)
+	}
+	sort.Slice(mss, func(i, j int) bool {
+		if mss[i].fn != mss[j].fn {
+			return mss[i].fn < mss[j].fn
+		}
+		return mss[i].src < mss[j].src
+	})
+	b.WriteString("/-- package vm: where every *VirtualMachine a function defines or returns comes from -/\n")
+	b.WriteString("def machineSources : List (String × String) := [\n")
+	for i, m := range mss {
+		sep := ","
+		if i == len(mss)-1 {
+			sep = ""
+		}
+		fmt.Fprintf(&b, "  (%s, %s)%s\n", q(m.fn), q(m.src), sep)
+	}
+	b.WriteString("]\n\n")
+	return b.String()
 }
